@@ -35,7 +35,7 @@ ASCII_S = ["abc", "Hello World", "a", "MiXeD cAsE", "x1y2", "  pad  ", "tab\tsep
            "one two  three", "ALLCAPS", "q", "", ""]      # the empty string is an argument like any other
 UNI_S = ["éàü", "αβγ", "Жук", "日本語", "éa", "naïve café", " nb ", "　wide　", "ÀÉÎ", "straße",
          "ǅ x", "ﬁn", "ı", "Ωmega"]
-NUM_S = ["0", "5", "-3", "2.5", "100", "255", "1024", "9223372036854775807", "9223372036854775808", "-0.5", "1e3", "16", "8", "1",
+NUM_S = ["0", "5", "-3", "2.5", "100", "255", "1024", "1000", "1000000", "0.001", "0.125", "9223372036854775807", "9223372036854775808", "-0.5", "1e3", "16", "8", "1",
          # arguments of the wrong kind: the documented outcome is an empty value (or a status-2 diagnostic), never a crash
          "abc", "1x", "5 ", "0x10"]
 DATE_S = ["2020-02-29", "2021-02-28", "2020-12-31", "2021-01-01", "2020-03-01 00:00:00", "2019-12-31 23:59:59",
@@ -69,7 +69,7 @@ def s_expr(draw, depth, force_call=False):
         pos = draw(st.sampled_from(list(range(-14, 15))))
         args = [a, ["num", str(pos)]]
         if draw(st.booleans()):
-            args.append(["num", str(draw(st.sampled_from([0, 1, 2, 3, 5, 20])))])
+            args.append(["num", str(draw(st.sampled_from([0, 1, 2, 3, 5, 20, 2 ** 31, 2 ** 64 - 1, 2 ** 64, 10 ** 20])))])
         return ["call", "substr", args]
     if f == "replace":
         needle = draw(st.sampled_from(["a", "aa", "b", "abc", " ", "é", "日", "zz", "A", "l", "o W", "."]))
@@ -183,7 +183,7 @@ def num_text(x):
 
 
 def as_text(v):
-    return num_text(v[1]) if v[0] == "n" else v[1]
+    return num_text(v[1]) if v[0] in ("n", "x") else v[1]
 
 
 WS = " \t 　"
@@ -287,13 +287,23 @@ def ref(e, ent, tz="UTC"):
                 if b is None:
                     return ("s", "")
                 r = math.log(v) / math.log(b)
+                # the logarithm of an exact power of the base is that exponent, not a neighbour of it (the documentation's
+                # own example is `log(1000)`; `where log(size) = 3` must find a 1000-byte file)
+                if v > 0 and b in (2.0, 10.0, 16.0):
+                    k = round(r)
+                    if abs(k) <= 60 and b ** k == v:
+                        return ("x", float(k))
             elif f == "power":
                 p = parse_f64(t[1]) if len(t) > 1 else 0.0
                 if p is None:
                     return ("s", "")
                 r = math.pow(v, p)
             else:
-                others = [x for x in (parse_f64(y) for y in t[1:]) if x is not None]
+                # an argument that is no number makes the result empty wherever it stands (the smallest / largest of
+                # the values cannot depend on the order of the arguments)
+                others = [parse_f64(y) for y in t[1:]]
+                if any(x is None for x in others):
+                    return ("s", "")
                 r = min([v] + others) if f == "least" else max([v] + others)
         except (ValueError, OverflowError, ZeroDivisionError):
             raise DC()
@@ -393,6 +403,11 @@ def check(case):
                 ok = True
                 if want[0] == "s":
                     ok = cell == want[1]
+                elif want[0] == "x":
+                    try:
+                        ok = float(cell) == want[1]
+                    except ValueError:
+                        ok = False
                 elif want[0] == "n":
                     try:
                         v = float(cell)
